@@ -152,11 +152,12 @@ def _seg2(c, typ="segments"):
     return [R(r, "iv"), R(e, "iv")]
 
 
-for _fn, _kws in [("segment.pairwise", [{}, {"frame_size": 0.5, "beta": 2.0}]), ("segment.rand_index", [{}, {"frame_size": 0.5}]),
-                  ("segment.ari", [{}, {"frame_size": 0.25}]), ("segment.mutual_information", [{}, {"frame_size": 0.5}]),
-                  ("segment.nce", [{}, {"marginal": True}, {"frame_size": 0.5}]), ("segment.vmeasure", [{}, {"beta": 0.5}]),
+for _fn, _kws in [("segment.pairwise", [{}, {"frame_size": 0.5, "beta": 2.0}, {"frame_size": 5.0}, {"frame_size": 12.0}]),
+                  ("segment.rand_index", [{}, {"frame_size": 0.5}, {"frame_size": 5.0}]),
+                  ("segment.ari", [{}, {"frame_size": 0.25}, {"frame_size": 5.0}]), ("segment.mutual_information", [{}, {"frame_size": 0.5}, {"frame_size": 7.0}]),
+                  ("segment.nce", [{}, {"marginal": True}, {"frame_size": 0.5}, {"frame_size": 5.0}]), ("segment.vmeasure", [{}, {"beta": 0.5}, {"frame_size": 6.0}]),
                   ("segment.validate_structure", [{}]),
-                  ("segment.evaluate", [{}, {"frame_size": 0.5, "window": 1.0}, {"trim": True}]),
+                  ("segment.evaluate", [{}, {"frame_size": 0.5, "window": 1.0}, {"trim": True}, {"frame_size": 5.0}, {"frame_size": 11.0}]),
                   ("util.merge_labeled_intervals", [{}])]:
     def _mk(kws):
         def t(c):
